@@ -17,16 +17,68 @@ namespace sc {
 // evt.set(), or inline by the waiter when the event is already signalled), parks the continuation
 // in the slot and marks it ready; the owning thread sits in dsched::block_until(slot.ready) and
 // then runs it.  No shared atomic is touched by this hand-over.
+// threads (other than the owner) that can still make progress: not finished and not parked on a
+// join.  A parked joiner gives up when this reaches 0 - nobody is left who could set the event -
+// and logs `joinN.stuck` instead of running the whole process into dsched's deadlock abort, so
+// that the monitor can say what went wrong.
+struct run_ctl { int active = 0; };
+struct active_guard {
+  run_ctl* c;
+  explicit active_guard(run_ctl* c_) : c(c_) {}
+  ~active_guard() { c->active--; }
+};
+
 struct resume_slot {
   int id = -1;
   bool ready = false;
   std::function<void()> k;
-  void run_when_ready() {
-    dsched::block_until([this] { return ready; });
+  // returns false if the join can never complete
+  bool run_when_ready(run_ctl* rc = nullptr) {
+    if (rc) rc->active--;
+    dsched::block_until([this, rc] { return ready || (rc && rc->active == 0); });
+    if (!ready) { dsched::action("join%d.stuck", id); return false; }
+    if (rc) rc->active++;
     auto f = std::move(k);
     ready = false;
     f();
+    return true;
   }
+};
+
+// a well-formed sender of int whose connect() throws (allocation failure inside connect, a
+// throwing receiver copy, ...)
+struct connect_failure : std::runtime_error { connect_failure() : std::runtime_error("connect failed") {} };
+struct throwing_leaf {
+  template <template <typename...> class Variant, template <typename...> class Tuple>
+  using value_types = Variant<Tuple<int>>;
+  template <template <typename...> class Variant>
+  using error_types = Variant<std::exception_ptr>;
+  static constexpr bool sends_done = true;
+  static constexpr unifex::blocking_kind blocking = unifex::blocking_kind::never;
+  static constexpr bool is_always_scheduler_affine = false;
+  int id;
+  template <typename R>
+  friend vh::leaf_op<unifex::remove_cvref_t<R>> tag_invoke(unifex::tag_t<unifex::connect>, const throwing_leaf& s, R&& r) noexcept(false) {
+    dsched::action("fault%d.connect throws", s.id);
+    throw connect_failure{};
+  }
+};
+
+// an allocator whose allocate() throws
+template <typename T>
+struct throwing_alloc {
+  using value_type = T;
+  int id = 0;
+  throwing_alloc() = default;
+  explicit throwing_alloc(int i) : id(i) {}
+  template <typename U>
+  throwing_alloc(const throwing_alloc<U>& o) noexcept : id(o.id) {}
+  T* allocate(std::size_t) { dsched::action("fault%d.allocate throws", id); throw std::bad_alloc(); }
+  void deallocate(T*, std::size_t) noexcept {}
+  template <typename U>
+  friend bool operator==(const throwing_alloc&, const throwing_alloc<U>&) noexcept { return true; }
+  template <typename U>
+  friend bool operator!=(const throwing_alloc&, const throwing_alloc<U>&) noexcept { return false; }
 };
 
 struct thread_sched {
@@ -84,6 +136,7 @@ inline bool has(const std::string& e, const char* s) { return e.find(s) != std::
 struct MonitorCfg {
   int joins_started = 0;    // number of join senders the program starts
   bool expect_stop = false; // the program requests stop: every outstanding leaf must observe it
+  std::string fault_op;     // the operation the program makes throw (for the verdict text)
   // leaves whose stop request may legitimately be in flight on another thread when the scope's
   // request_stop() returns (spawn_future: dropping the future also requests stop; the attach
   // operation lets only the first of its two stop callbacks forward the request)
@@ -120,6 +173,14 @@ inline std::string scope_monitor(const dsched::Result& r, const MonitorCfg& cfg)
     if (a.rfind("leaf", 0) == 0 && has(a, ".complete")) leaf_completed[who]++;
     if (a.rfind("leaf", 0) == 0 && has(a, ".stop_seen")) leaf_stop[who]++;
     if (a.rfind("nest", 0) == 0 && has(a, " done") && !leaf_started.count("leaf" + who.substr(4))) nest_done[who] = true;
+    if (a.rfind("join", 0) == 0 && has(a, ".stuck")) {
+      bool outstanding = false;
+      for (auto& kv : leaf_started) if (!leaf_completed.count(kv.first)) outstanding = true;
+      if (!outstanding)
+        return "join did not complete although no work is outstanding [" + (cfg.fault_op.empty() ? std::string("-") : cfg.fault_op) +
+               "] (count leaked: admitted=" + std::to_string(admitted) + " released=" + std::to_string(released) + "): " + e;
+      return "join did not complete: " + e;
+    }
     if (a.rfind("join", 0) == 0 && (has(a, ".complete") || has(a, ".error") || has(a, ".done"))) {
       if (!has(a, ".complete")) return "join completed with error/done: " + e;
       if (++join_done[who] > 1) return "join completed twice: " + e;
